@@ -337,7 +337,7 @@ def result_leaves(node, lets=None):
     return out
 
 
-def keeps_variant(F, body, report, self_lid=None, plain_fields=(), reviewed=None):
+def keeps_variant(F, body, report, self_lid=None, plain_fields=(), reviewed=None, crate_bodies=None, depth=0):
     """A rewriting pass `fn analyze(self, ..) -> Self` over an enum hands back the node it was given: in the arm for variant V
     every value the arm can evaluate to is `self`, a V rebuilt from the arm's own bindings, or a Poison.  A field named in
     `plain_fields` (an operator, a type annotation that is not rewritten) must be the arm's binding itself.  Returns the
@@ -384,6 +384,16 @@ def keeps_variant(F, body, report, self_lid=None, plain_fields=(), reviewed=None
                             report("%s.%s" % (vkey, f["name"]), ok, F.where(body, f["e"]),
                                    "the %s of a rebuilt %s is the one of the node at hand" % (f["name"], vkey), None)
                 continue
+            if k == "Call" and not ctor and depth < 1:
+                # a helper of the crate that builds the node: its own results decide (one level)
+                hb = crate_bodies.get(hirq.callee(x) or "") if crate_bodies else None
+                if hb is not None and "hir" in hb:
+                    sub = [hirq.unwrap_trivial(y) for y in result_leaves(hb["hir"])]
+                    subc = [norm_path(y.get("path") or y.get("ctor_of") or y.get("callee") or y.get("res") or "") for y in sub
+                            if y.get("k") == "Struct" or (y.get("ck") or "").startswith("Ctor") or (y.get("rk") or "").startswith("Ctor")]
+                    if sub and len(subc) == len(sub) and variants is not None and all(
+                            c.split("::")[-1] == "Poison" or "::".join(c.split("::")[-2:]) in variants for c in subc):
+                        continue
             what = ctor.split("::", 2)[-1] if ctor else (k + (" " + str(x.get("name") or hirq.callee(x) or "") if k in ("MethodCall", "Call") else ""))
             key = "%s -> %s" % (vkey, what)
             if key in reviewed:
